@@ -142,24 +142,7 @@ func runC15(c *Ctx) {
 
 	c.rule("C15.G1", "broadcastHandler: a transaction enters the pending set only if the broadcast returned no error or a Mempool error; a rejected broadcast is answered with its error; every request gets exactly one reply", func() {
 		fn := c.fn(fnBHandler)
-		isTxMap := func(v ssa.Value) bool {
-			mk, ok := v.(*ssa.MakeMap)
-			if !ok {
-				return false
-			}
-			m := mk.Type().Underlying().(*types.Map)
-			p, ok := m.Elem().(*types.Pointer)
-			return ok && p.Elem().String() == c.P.Named(pWire, "MsgTx").String() && mk.Parent() == fn
-		}
-		var txMap ssa.Value
-		ir.Instrs(fn, func(in ssa.Instruction) {
-			if v, ok := in.(ssa.Value); ok && isTxMap(v) {
-				txMap = v
-			}
-		})
-		if txMap == nil {
-			panic(anchorErr{"the pending-transactions map of broadcastHandler"})
-		}
+		txMap := c.pendingTxMap(fn)
 		isPending := func(v ssa.Value) bool {
 			return ir.DerivesFrom(v, func(x ssa.Value) bool { return x == txMap })
 		}
@@ -228,7 +211,16 @@ func runC15(c *Ctx) {
 		}
 		c.verdict(okv && len(calls) == 1, c.nm(fn)+" | Broadcast(tx) for tx ranging over DependencySort(txs)", c.P.Pos(fn.Pos()), "iteration order is the dependency order", "rebroadcast no longer iterates the result of wtxmgr.DependencySort(txs) (children could be sent before their parents)", c.ats(append(sorts, calls...))...)
 		gC := boolIs("IsBroadcastError(err, Confirmed)", find(fn, c.isBroadcastErrCall(c.pushtxConst("Confirmed"))), 0, true)
-		conf := sendOn(isParam(fn, 2))
+		// on the confirmation channel: the channel parameter (the handler
+		// passes b.confChan, C15.P1) or the field itself
+		confF := c.field("pushtx", "Broadcaster", "confChan")
+		conf := anyOf(sendOn(func(v ssa.Value) bool {
+			if len(fn.Params) <= 2 {
+				return false
+			}
+			_, isChan := fn.Params[2].Type().Underlying().(*types.Chan)
+			return isChan && isParam(fn, 2)(v)
+		}), sendOn(loadsField(confF)))
 		c.mustFollowIter(fn, "rebroadcast says Confirmed", c.successEdges(gC), conf, "confChan <- tx.TxHash()", nil, 1)
 	})
 
@@ -248,7 +240,8 @@ func runC15(c *Ctx) {
 		}
 		// closures: trigger = the one containing a Go; worker = the go'd literal
 		var trigger, worker *ssa.Function
-		for _, cl := range ir.WithClosures(fn)[1:] {
+		// (the handler itself when the trigger is written out in the loop)
+		for _, cl := range ir.WithClosures(fn) {
 			for _, in := range find(cl, func(in ssa.Instruction) bool { _, ok := in.(*ssa.Go); return ok }) {
 				if mc, ok := in.(*ssa.Go).Call.Value.(*ssa.MakeClosure); ok {
 					if f, ok := mc.Fn.(*ssa.Function); ok {
@@ -297,7 +290,14 @@ func runC15(c *Ctx) {
 				}
 			}
 		}
-		gos := find(trigger, func(in ssa.Instruction) bool { _, ok := in.(*ssa.Go); return ok })
+		gos := find(trigger, func(in ssa.Instruction) bool {
+			g, ok := in.(*ssa.Go)
+			if !ok {
+				return false
+			}
+			mc, isMc := g.Call.Value.(*ssa.MakeClosure)
+			return isMc && mc.Fn == ssa.Value(worker)
+		})
 		c.guarded(trigger, gs, 1, "go rebroadcast", gos, 1, gDominate)
 		// token balance in the trigger: once the token was taken, every path to
 		// the trigger's exit either starts the goroutine (which gives it back) or
@@ -423,8 +423,8 @@ func runC15(c *Ctx) {
 			if !ok {
 				return
 			}
-			m, ok := mu.Map.Type().Underlying().(*types.Map)
-			if !ok || types.TypeString(m.Key(), nil) != pChainhash+".Hash" {
+			pend := c.pendingTxMap(bh)
+			if !ir.DerivesFrom(mu.Map, func(x ssa.Value) bool { return x == pend }) {
 				return
 			}
 			ins++
@@ -651,4 +651,41 @@ func runC15(c *Ctx) {
 		}
 		c.verdict(len(miss) == 0, c.nm(pf)+" | reject codes Invalid/Nonstandard/InsufficientFee/Duplicate are all classified", c.P.Pos(pf.Pos()), "4 reject codes consulted", "reject code(s) no longer classified: "+join(miss))
 	})
+}
+
+// pendingTxMap finds the handler's pending set: the map[Hash]*wire.MsgTx made
+// in fn from which confirmed transactions are deleted (the per-rebroadcast
+// copy handed to the goroutine is of the same type but is never deleted
+// from); with no delete at all, the one made outside every loop.
+func (c *Ctx) pendingTxMap(fn *ssa.Function) ssa.Value {
+	var all, deleted, outside []ssa.Value
+	ir.Instrs(fn, func(in ssa.Instruction) {
+		mk, ok := in.(*ssa.MakeMap)
+		if !ok {
+			return
+		}
+		m := mk.Type().Underlying().(*types.Map)
+		p, ok := m.Elem().(*types.Pointer)
+		if !ok || p.Elem().String() != c.P.Named(pWire, "MsgTx").String() {
+			return
+		}
+		all = append(all, mk)
+		if ir.LoopHeaderOf(mk.Block()) == nil {
+			outside = append(outside, mk)
+		}
+		if len(find(fn, mapDelete(func(v ssa.Value) bool {
+			return ir.DerivesFrom(v, func(x ssa.Value) bool { return x == ssa.Value(mk) })
+		}))) > 0 {
+			deleted = append(deleted, mk)
+		}
+	})
+	switch {
+	case len(deleted) == 1:
+		return deleted[0]
+	case len(deleted) == 0 && len(outside) == 1:
+		return outside[0]
+	case len(all) == 1:
+		return all[0]
+	}
+	panic(anchorErr{"the pending-transactions map of broadcastHandler"})
 }
